@@ -187,6 +187,18 @@ def main(tier, seed):
             run.violation("labelled and label-free outputs behave differently",
                           {"kind": "dynamic", "verdict": b[0][0], "clash_kind": dup_clash(lc, p), "program": name, "source": src, "options": opts,
                            "labelled": lc[:2500], "label_free": nc[:2500]})
+    # (e) remove_unused_labels against its Coq model: labelled outputs (comment options included), variants with
+    # extra / indented label lines and trailing comments, adversarial texts
+    from .. import unused_labels
+    ul_texts = list(unused_labels.ADVERSARIAL)
+    seen_ul = set()
+    for m in glue_meta:
+        if m[3] not in seen_ul and len(seen_ul) < (60 if tier == "quick" else 600):
+            seen_ul.add(m[3])
+            ul_texts += unused_labels._variants(rng, m[3])
+    for t in list(unused_labels.ADVERSARIAL):
+        ul_texts += unused_labels._variants(rng, t)[1:]
+    kinds["unused_label_texts"] = unused_labels.correspondence(run, ul_texts)
     for f in run.findings.open_for("C05"):
         if f["id"] not in run.known_hits:
             run.note(f"known finding {f['id']} did not reproduce in this run")
